@@ -80,14 +80,23 @@ def strategy_(draw, tier):
     nodes = [mk(fnp, 'uidP'), mk(fnx, 'uidX')]
     slots = draw(st.permutations(['b', 'c', 'd', 'e']))
     skw = {slots[0]: 0, slots[1]: 1, slots[2]: 1}
+    if draw(st.booleans()):
+      # an unshared, more complex node of X's callable inside S (extracted by the complexity pass)
+      nodes.append({'k': 'list', 'items': [{'leaf': i} for i in range(draw(st.integers(1, 4)))]})
+      nodes.append(mk(fnx, 'uidBIG', y=2))
+      skw[slots[3]] = 3
+    si = len(nodes)
     nodes.append({'k': 'B', 'bt': 'Config', 'fn': {'kind': 'sym', 'name': 'things:h1'}, 'pos': [],
                   'kw': dict({'a': {'leaf': 'uidS'}}, **skw), 'edits': []})
     rslots = draw(st.permutations(['b', 'c', 'd']))
+    rkw = {'a': {'leaf': 'uidR'}, rslots[0]: si}
+    if draw(st.floats(0, 1)) < 0.7:
+      rkw[rslots[1]] = 0       # P is shared between S and the outside
     nodes.append({'k': 'B', 'bt': 'Config', 'fn': {'kind': 'sym', 'name': 'things:h1'}, 'pos': [],
-                  'kw': {'a': {'leaf': 'uidR'}, rslots[0]: 2, rslots[1]: 0}, 'edits': []})
-    return {'kind': 'config', 'recipe': {'nodes': nodes, 'root': 3}, 'scenario': 'subfix',
+                  'kw': rkw, 'edits': []})
+    return {'kind': 'config', 'recipe': {'nodes': nodes, 'root': si + 1}, 'scenario': 'subfix', 'S': si,
             'gen': draw(st.sampled_from(['new_codegen', 'auto_config_codegen'])),
-            'subs': ['S'], 'mec': draw(st.sampled_from([None, None, 1, 3])), 'history': False}
+            'subs': ['S'], 'mec': draw(st.sampled_from([None, None, 1, 2, 3, 4, 5])), 'history': False}
   if draw(st.floats(0, 1)) < 0.08:
     # a leaf symbol from a module that is referenced nowhere else, next to an extracted variable
     # whose preferred name is that module's name (**kwargs field named like the module)
@@ -242,7 +251,7 @@ def check(case):
       bs.append(v)
   sub_fixtures = None
   if case.get('scenario') == 'subfix':
-    sub_fixtures = {'sub_fixture_0': objs[2]}
+    sub_fixtures = {'sub_fixture_0': objs[case.get('S', 2)]}
     out.cls('scenario_subfix')
   elif case['subs'] and bs:
     sub_fixtures = {}
